@@ -63,7 +63,7 @@ type State struct {
 	Vals     []Val
 	Outst    map[string]*big.Int // "v|denom"
 	Comm     map[string]*big.Int
-	QLookup  map[string]*Utxr   // by-request-id query: "tenant|request-id token" -> answer (nil: not found)
+	QLookup  map[string]*Utxr    // by-request-id query: "tenant|request-id token" -> answer (nil: not found)
 	QList    map[uint64][]string // list query per tenant: "request-id token*amount" in the order returned; absent: refused
 }
 
